@@ -198,11 +198,29 @@ def add_obligations(rep, ctx):
 
     # ---- new_cached: the cache is opened for this hasher's algorithm and its complete transform command
     import optsum as _opt
-    e_nc = oblig.engine(prog, unroll=0, inline=oblig.module_inliner(prog, "hasher.rs", r"HashCache::"), extra=dict(_opt.SUMMARIES))
+    from obligations.C11 import template_format as _tf
+    e_nc = oblig.engine(prog, unroll=0, inline=oblig.module_inliner(prog, "hasher.rs", r"HashCache::"),
+                        extra=dict(_opt.SUMMARIES, **{
+                            r"^(std::fmt::|alloc::fmt::)?format$": _tf,
+                            r"^(core::fmt::rt::)?Argument::new_(display|debug)$": lambda e, st, c, a, d: Agg("fmtarg", {0: a[0]}),
+                            r"^(std::fmt::|core::fmt::)?Arguments::(new|new_const|from_str)$": lambda e, st, c, a, d: Agg("fmtargs", {0: a[0], 1: a[1] if len(a) > 1 else Agg("array", {})})}))
     fnc = prog.method("FileHasher", "new_cached")
-    tval = Lazy("T", "transform::Transform")
-    alg = Lazy("alg", fnc.args[0][1])
     i_cmd = prog.src.field_index("Transform", "command_str")
+    i_inp = prog.src.field_index("Transform", "in_place")
+    in_place = z3.Bool("T.in_place")
+    tval = Agg("transform::Transform", {i_inp: Bool(in_place)}, base="T")
+    alg = Lazy("alg", fnc.args[0][1])
+    descs = []
+
+    def describe(p, v):
+        """what the string handed to the cache is made of: canonical text, views (as_str / deref ..) followed to their source"""
+        st = _st(p)
+        for _ in range(6):
+            src = [ev for ev in p.events if ev.kind == "call" and ev.ret is v and ev.args and re.search(r"as_str$|[Dd]eref|as_ref$|as_deref$|borrow$|clone$|to_string$|to_owned$", ev.callee)]
+            if not src:
+                break
+            v = src[0].args[0]
+        return summaries.canon(e_nc, st, v)
     for label, targ in (("with a transform", EnumV("Option", "Some", 1, {0: tval})), ("without a transform", EnumV("Option", "None", 0, {}))):
         ps = e_nc.run(fnc, args=[alg, targ, Lazy("log", fnc.args[2][1])])
 
@@ -221,19 +239,35 @@ def add_obligations(rep, ctx):
                 ok = False
                 if isinstance(a_tr, EnumV) and a_tr.variant == "Some":
                     v = a_tr.fields.get(0)
-                    # the &str handed over is a view (as_str / deref / as_ref) of the transform's `command_str` field
-                    src = [ev for ev in p.events if ev.ret is v and re.search(r"as_str$|[Dd]eref|as_ref$|borrow$", ev.callee)]
-                    for ev in src:
-                        a0 = ev.args[0] if ev.args else None
-                        fl = [x for x in getattr(a0, "path", ()) if x and x[0] == "field"]
-                        if fl and fl[-1][1] == i_cmd and "String" in str(fl[-1][2]):
-                            ok = True
+                    # the string handed over is the transform's complete `command_str` (a view of it, or a text built around it)
+                    d = describe(p, v)
+                    descs.append((list(p.pc), d))
+                    ok = "command_str" in d or ".%d" % i_cmd in d
             r = p.result.fields[0]
             same = isinstance(r, Agg) and any(v is alg for v in r.fields.values())
             return z3.BoolVal(bool(ok and same))
         finish(oblig.check_paths(e_nc, ps, "new_cached (%s): the cache tree is opened for the hasher's own algorithm and the complete transform command string" % label,
                                  nc_prop, fns(), key="hasher:new_cached", allow=("return", "panic", "diverge", "bound")))
     eng.encoded.update(e_nc.encoded)
+    # --in-place selects which bytes are hashed (the program's output vs the file it worked on): the two settings must not share a tree
+    o_ip = Obligation("new_cached: the cache tree name depends on --in-place (the two settings hash different bytes for the same command)", "E2 mirsym/z3", fns(),
+                      "transform with in_place symbolic")
+    o_ip.key = "hasher:new_cached:in-place"
+    slv = z3.Solver()
+    t_descs = {d for pc, d in descs if slv.check(*(pc + [in_place])) == z3.sat}
+    f_descs = {d for pc, d in descs if slv.check(*(pc + [z3.Not(in_place)])) == z3.sat}
+    o_ip.queries = 2 * len(descs)
+    o_ip.stats = {"paths": len(descs), "states": len(descs), "transitions": o_ip.queries}
+    if not descs:
+        o_ip.verdict, o_ip.detail = "inconclusive", "no path of new_cached hands a transform string to the cache"
+    elif (t_descs & f_descs) and not any("in_place" in d for d in (t_descs & f_descs)):
+        o_ip.verdict = "violated"
+        o_ip.cex = {"tree_name_built_from": sorted(t_descs & f_descs)[:2]}
+        o_ip.detail = "with and without --in-place the tree is named after %s" % sorted(t_descs & f_descs)[0][:120]
+    else:
+        o_ip.verdict = "holds"
+        o_ip.witness = "in-place: %s / not: %s" % (sorted(t_descs)[:1], sorted(f_descs)[:1])
+    finish(o_ip)
 
     # ---- hashers: helpers of hasher.rs are inlined down to the leaves (HashCache::get/put/key, FileMetadata::new, open,
     # stream_hash, Transform::run), so the obligations do not depend on how the hashers are factored into functions
